@@ -187,6 +187,8 @@ func (e *env) close() {
 }
 
 type store struct {
+	env   *env
+	w     *world
 	id    string
 	owner *device
 	st    keyvaluestorage.Storage
@@ -197,7 +199,7 @@ type store struct {
 
 func (e *env) newStore(w *world, owner *device) (*store, error) {
 	e.n++
-	s := &store{id: fmt.Sprintf("kv.store.%d", e.n), owner: owner, plan: &faultPlan{}, cap: &capture{}, heads: e.heads}
+	s := &store{env: e, w: w, id: fmt.Sprintf("kv.store.%d", e.n), owner: owner, plan: &faultPlan{}, cap: &capture{}, heads: e.heads}
 	acl := w.accounts[owner.acc].acl
 	st, err := keyvaluestorage.New(bg, s.id, &faultDB{DB: e.db, plan: s.plan}, &faultHeads{HeadStorage: e.heads, plan: s.plan},
 		owner.keys, s.cap, acl, keyvaluestorage.NoOpIndexer{})
@@ -261,4 +263,15 @@ func (s *store) headsEntry() (string, error) {
 		return "", fmt.Errorf("heads entry has %d heads", len(e.Heads))
 	}
 	return e.Heads[0], nil
+}
+
+// reopenedHash opens the same collection again with the real constructor (what a restart does:
+// innerstorage.New rebuilds the index from the stored documents) and returns that index' hash.
+func (s *store) reopenedHash() (string, int, error) {
+	st, err := keyvaluestorage.New(bg, s.id, s.env.db, s.env.heads, s.owner.keys, &capture{}, s.w.accounts[s.owner.acc].acl, keyvaluestorage.NoOpIndexer{})
+	if err != nil {
+		return "", 0, err
+	}
+	d := st.InnerStorage().Diff()
+	return d.Hash(), d.Len(), nil
 }
